@@ -18,6 +18,7 @@ import (
 	"strings"
 	"sync"
 	"sync/atomic"
+	"syscall"
 	"time"
 )
 
@@ -116,7 +117,7 @@ func c18Gen(r *rand.Rand, tier string, idx int) []string {
 			left := sz
 			for left > 0 {
 				if r.Intn(4) == 0 {
-					res = append(res, "e")
+					res = append(res, []string{"e", "m"}[r.Intn(2)])
 					continue
 				}
 				k := 1 + r.Intn(left+3)
@@ -146,7 +147,7 @@ func c18Gen(r *rand.Rand, tier string, idx int) []string {
 			left := total
 			for left > 0 {
 				if r.Intn(5) == 0 {
-					res = append(res, "e")
+					res = append(res, []string{"e", "m"}[r.Intn(2)])
 					continue
 				}
 				k := 1 + r.Intn(left+3)
@@ -174,6 +175,8 @@ func c18ParseRes(ws []string) []int {
 	for _, w := range ws {
 		if w == "e" {
 			r = append(r, -1)
+		} else if w == "m" {
+			r = append(r, -2)
 		} else {
 			r = append(r, vAtoi(w))
 		}
@@ -297,13 +300,37 @@ func c18Exec(ops []string) vResult {
 				}
 				sc := &vSysScriptT{writes: c18ParseRes(f[2:])}
 				conn := c.c
-				sc.onEagainWrite = func() { asyncNotify(conn.onWriteReadyCh); c.tags["eagain-on-write"] = true }
+				// the kernel's answer to EAGAIN is a later event for the connection: write-ready alone (`e`), or write-ready
+				// merged with read-ready in ONE event (`m`: traffic in the other direction arrived in the same epoll round;
+				// the read finds nothing new). It goes through the real handleEvent.
+				conn.callback = &c18CB{c: conn, run: c, rpos: &c.rpos} // consumes nothing
+				sc.onEagainWrite = func(kind int) {
+					c.tags["eagain-on-write"] = true
+					ev := syscall.EPOLLOUT
+					if kind == -2 {
+						ev |= syscall.EPOLLIN
+						c.tags["write-ready-merged-with-read-ready"] = true
+					}
+					conn.handleEvent(ev, conn.dispatcher)
+				}
 				vSysScript = sc
 				var err error
-				if f[0] == "write" {
-					err = conn.write(slices[0])
-				} else {
-					err = conn.writev(slices...)
+				fin := make(chan error, 1)
+				go func() {
+					if f[0] == "write" {
+						fin <- conn.write(slices[0])
+					} else {
+						fin <- conn.writev(slices...)
+					}
+				}()
+				select {
+				case err = <-fin:
+				case <-time.After(3 * time.Second):
+					// S (C18): a writer that met EAGAIN continues when the kernel reports the connection writable
+					c.setFail("write-never-woken", fmt.Sprintf("%s: the kernel reported the connection writable after EAGAIN, the writer is still asleep 3 s later (%d of %d bytes written)", f[0], len(sc.wout), len(all)))
+					atomic.StoreUint32(&conn.isClose, 1)
+					asyncNotify(conn.onWriteReadyCh)
+					err = <-fin
 				}
 				vSysScript = nil
 				// S: what the kernel accepted is a prefix of the data, each byte once, in order; complete iff no error
